@@ -16,6 +16,7 @@ EXPLANATION = (
     "reviewed instances whose consumer is order-insensitive (set membership, deletion order) or which is sorted "
     "before use (source walk, see C11.2); (3) no archive write is issued from a spawned task on those paths, so "
     "writes happen in program order."
+    " Added in later rounds: no branch on the write paths tests a clock/random/environment-derived value (C17.1c, with stored time stamps read back treated as data); an unordered collection is consumed whole (C17.2c)."
 )
 UNDECIDED = ["bit-identity of the compressor output across runs (snap is deterministic; trusted)", "platform differences", "comparison of two real replays"]
 ASSUMPTIONS = ["snap and serde_json are deterministic functions of their input"]
